@@ -147,16 +147,19 @@ func (c *Conversation) processDataMessageWithRawErrors(header, msg []byte) (plai
 		c.messageEvent(MessageEventLogHeartbeatReceived)
 	}
 
-	err = c.rotateKeys(dataMessage)
-	if err != nil {
-		return
-	}
+	// a rotation that cannot draw its new key changes nothing and is tried again with the peer's next
+	// message. The message itself is authentic and has been accepted: what it asks for - the end of the
+	// conversation above all - is done before the failure is reported
+	rotationErr := c.rotateKeys(dataMessage)
 
 	sessionKeys.unlock()
 
 	var tlvs []tlv
 
 	tlvs, err = c.processTLVs(p.tlvs, dataMessageExtra{sessionKeys.extraKey})
+	if err == nil {
+		err = rotationErr
+	}
 	if err != nil {
 		return
 	}
